@@ -128,7 +128,7 @@ def r3_text_handlers(chk, rule='C15.R3'):
                    tag, [norm(x.value)[:50] for x in rets]))
     o, fn = ci.find_method('genRevisions')
     ok = any(isinstance(s, ast.Assign) and norm(s.targets[0]).endswith("['description']") and
-             norm(s.value) == "self.textFilter('description', x[1][1])" for s in walk_no_nested(fn))
+             common.pmatch(s.value, "self.textFilter('description', $x[1][1])") is not None for s in walk_no_nested(fn))
     chk.ob(rule, 'IntermediateCodeGen.genRevisions/description', ok, where(mod, fn),
            'revision descriptions must pass the text filter')
     # grammar: quotes stripped exactly (C02.R4) - referenced, decided there
